@@ -2,7 +2,7 @@ PROP = dict(
     level="exploration",
     design_ref="DESIGN.md §3 C11, §2.2",
     technique="rapid-generated multi-snap request histories (with and without injected failures) run through the real snapstate entry points; after every settled change and every refused request snapstate.All is cross-checked against a world model folded from the fake backend's operation log",
-    level_text="Histories of 5-16 (thorough 25) requests over plain, service, and instance-keyed snaps - install, refresh to new/kept revisions, revert, enable, disable, remove (whole, purge, single revision), switch, config writes, requests issued against a disabled snap - each optionally failing at a drawn task of its change or inside a drawn backend call, each settled before the next. After every settle: the change has nothing pending; for every snap either side knows: current is a kept revision, the kept revisions are exactly the revisions present on the system, the linked revision is the current one iff the snap is active, and a snap that is not recorded has nothing present, nothing linked, no configuration, no per-revision configuration and no aliases; no record with an empty revision list persists.",
+    level_text="Histories of 5-16 (thorough 25) requests over plain, service, and instance-keyed snaps - install, refresh to new/kept revisions, revert, enable, disable, remove (whole, purge, single revision), switch, config writes, requests issued against a disabled snap - each optionally failing at a drawn task of its change or inside a drawn backend call, each settled before the next. After every settle: the change has nothing pending; for every snap either side knows: current is a kept revision, the kept revisions are exactly the revisions present on the system, the linked revision is the current one iff the snap is active, and a snap that is not recorded has nothing present, nothing linked, no configuration and no per-revision configuration; no record with an empty revision list persists. (Aliases of a snap that is gone are counted as an observation only - the statement does not list them.)",
     level_note="Sampled histories; trusts that snapd's fake backend logs each call (the world model is the harness's own fold of that log, failed calls count as having no effect). One failure per change; undo handlers are not made to fail.",
     rule="rapid draws 5..16/25 steps (operation kind, snap - concentrated on a focus snap so revisions pile up -, flags, picks of kept revisions, optional failure point / backend fault, disable-request-enable episodes); non-trivial = the history has a failed operation followed by a successful one on the same snap, or a successful removal of a non-current revision, or a disable -> refused refresh/revert -> enable episode; distinct by hash of the case",
     assumptions=["fake backend logs each call; a backend call made to fail has no effect on the world model",
